@@ -239,10 +239,14 @@ class QvmCpu:
         self.error_handler_active = False
         self.trapped_addr = 0
 
+        # the depth of the operand stack when the statement that
+        # raised the error being handled began (see stmt_starts)
+        self.trapped_stack_depth = None
+
         # the addresses statements begin at (known with debug info
         # only): the depth of the operand stack is noted there, so
         # that the partial results of a statement that fails can be
-        # dropped when its error is handled
+        # dropped when it is resumed or skipped
         self.stmt_starts = None
         debug_info = getattr(module, 'debug_info', None)
         if debug_info is not None:
@@ -455,11 +459,14 @@ class QvmCpu:
 
     def _drop_partial_results(self):
         # what the failing statement had pushed so far is of no use to
-        # the handler, to the statement when it is resumed, or to the
-        # next statement (a RETURN would take it for an address)
-        frame = self.cur_frame
-        if frame is not None and frame.stmt_stack_depth is not None:
-            del self.stack[frame.stmt_stack_depth:]
+        # the statement when it is resumed, or to the next statement
+        # (a RETURN would take it for an address). this happens when
+        # RESUME or RESUME NEXT is executed, not when the handler is
+        # entered: resuming needs the debug info anyway, and a program
+        # that does not resume behaves the same with and without it.
+        if self.trapped_stack_depth is not None:
+            del self.stack[self.trapped_stack_depth:]
+            self.trapped_stack_depth = None
 
     def _trap(self, code, **kwargs):
         logger.info('Received trap: %s', code)
@@ -470,9 +477,11 @@ class QvmCpu:
         if not self.error_handler_active and \
            self.trap_target is not None:
             if self.trap_target == 'next':
+                if self.cur_frame is not None:
+                    self.trapped_stack_depth = \
+                        self.cur_frame.stmt_stack_depth
                 try:
                     self._exec_errresn()
-                    self._drop_partial_results()
                     return
                 except Trapped as e:
                     # cannot skip the failing statement (no debug info
@@ -495,7 +504,9 @@ class QvmCpu:
                     del self.stack[frame.stack_base:]
                     self.cur_frame = frame.prev_frame
                     frame.destroy()
-                self._drop_partial_results()
+                if self.cur_frame is not None:
+                    self.trapped_stack_depth = \
+                        self.cur_frame.stmt_stack_depth
                 self.pc = self.trap_target
                 self.error_handler_active = True
                 return
@@ -884,6 +895,7 @@ class QvmCpu:
             self.trap(TrapCode.CANNOT_RESUME,
                       msg=f'Could not find statement to resume at addr {self.trapped_addr:08x}.')
         self.error_handler_active = False
+        self._drop_partial_results()
         self.pc = stmt.start_offset
 
     def _exec_errresn(self):
@@ -896,6 +908,7 @@ class QvmCpu:
             self.trap(TrapCode.CANNOT_RESUME,
                       msg=f'Could not find statement to resume at addr {self.trapped_addr:08x}.')
         self.error_handler_active = False
+        self._drop_partial_results()
         self.pc = stmt.end_offset
 
     def _exec_exp(self):
